@@ -18,6 +18,8 @@ const (
 	kIdx0Empty    = "index0-on-empty-array"        // Set '$..x[0]' where x is [] : in-memory appends, stored does nothing (or panics / corrupts its re-scan)
 	kKeyOnArray   = "key-leg-on-non-object"        // a key leg meets an array or scalar: location keys compare bytes only, '$.0' hits array cell 48
 	kMergeErr     = "merge-internal-error"         // MergeJSON returns jsonParseError (SetWithKey/RemoveWithKey have no fallback)
+	kArrShrink    = "merge-array-shrinks"          // a side removes two or more cells of an array: RemoveWithKey is applied by ascending index, the later indexes have shifted
+	kDiffOrder    = "merge-diff-order-prefix-keys" // sibling keys where one is a prefix of the other: the differ emits in string order, the three-way loop compares encoded keys (0xFF terminator) — a left diff is dropped early and a later conflict in the same array is missed
 	kPanic        = "stored-op-panics"             // IndexedJsonDocument panics (index out of range [-1] / "Reached the end of the JSON document")
 )
 
@@ -62,7 +64,7 @@ func classifyFeatures(f []string, oc opCase) string {
 }
 
 func classify(doc any, oc opCase, impl, gms outcome) string {
-	if impl.err && strings.HasPrefix(impl.errMsg, "panic:") && (oc.Op == "set" || oc.Op == "replace" || oc.Op == "insert") {
+	if impl.err && strings.HasPrefix(impl.errMsg, "panic:") {
 		return kPanic
 	}
 	f := features(doc, oc)
@@ -79,6 +81,12 @@ func classifyMerge(b, l, r any, got, want string) string {
 	}
 	if emptyArrayGrows(b, r) || emptyArrayGrows(b, l) {
 		return kIdx0Empty
+	}
+	if arrayShrinks(b, r) || arrayShrinks(b, l) {
+		return kArrShrink
+	}
+	if prefixSiblings(b) || prefixSiblings(l) || prefixSiblings(r) {
+		return kDiffOrder
 	}
 	if hasOddKeys(b) || hasOddKeys(l) || hasOddKeys(r) {
 		return kKeyEscape
@@ -116,6 +124,62 @@ func emptyArrayGrows(b, x any) bool {
 	return false
 }
 
+// arrayShrinks: somewhere an array of the base is at least two cells shorter on the other side
+func arrayShrinks(b, x any) bool {
+	switch bv := b.(type) {
+	case []any:
+		xv, ok := x.([]any)
+		if !ok {
+			return false
+		}
+		if len(xv)+2 <= len(bv) {
+			return true
+		}
+		for i := range bv {
+			if i < len(xv) && arrayShrinks(bv[i], xv[i]) {
+				return true
+			}
+		}
+	case map[string]any:
+		xv, ok := x.(map[string]any)
+		if !ok {
+			return false
+		}
+		for k, v := range bv {
+			if w, ok := xv[k]; ok && arrayShrinks(v, w) {
+				return true
+			}
+		}
+	}
+	return false
+}
+
+// prefixSiblings: some object has two keys one of which is a proper prefix of the other
+func prefixSiblings(v any) bool {
+	switch x := v.(type) {
+	case map[string]any:
+		for k := range x {
+			for k2 := range x {
+				if k != k2 && strings.HasPrefix(k2, k) {
+					return true
+				}
+			}
+		}
+		for _, w := range x {
+			if prefixSiblings(w) {
+				return true
+			}
+		}
+	case []any:
+		for _, w := range x {
+			if prefixSiblings(w) {
+				return true
+			}
+		}
+	}
+	return false
+}
+
 func classifySQL(doc any, oc opCase, stored, literal string) string {
 	k := classifyFeatures(features(doc, oc), oc)
 	if k == kLastMinusN && !strings.HasPrefix(stored, "err") {
@@ -137,4 +201,6 @@ var witnesses = []kase{
 	{Kind: "ops", Doc: `[]`, Ops: []opCase{{Op: "set", Legs: []leg{{I: n(0)}}, Val: `9`}}},
 	{Kind: "ops", Doc: `{"x":[]}`, Ops: []opCase{{Op: "set", Legs: []leg{{K: s("x")}, {I: n(0)}}, Val: `9`}}},
 	{Kind: "merge", Base: `{"a":[[],[]]}`, Left: `{"a":[[],[]]}`, Right: `{"a":[[],[1]]}`},
+	{Kind: "merge", Base: `{"k":0,"key2":[{"x":0},"s",1]}`, Left: `{"k":0,"key2":[{"x":5},"s",1]}`, Right: `{"k":[1],"key2":[{"x":0},1]}`},
+	{Kind: "merge", Base: `{"a":[1,2,3],"b":1}`, Left: `{"a":[1,2,3],"b":2}`, Right: `{"a":[1],"b":1}`},
 }
